@@ -379,6 +379,19 @@ def g4_fold_context(ctx: Ctx):
     rets = [s for s in ast.walk(tr) if isinstance(s, ast.Return) and isinstance(s.value, ast.Call)]
     good = any(norm(r.value) == 'to_value(self.rt.eval_expr(e_eval, self._base_env(), ctx))' for r in rets)
     ctx.check(good, PE, tr, '_PartialEvalInstance._try_eval', 'evaluation by the real interpreter under the given ctx', 'evaluation route changed')
+    # under a context with random bits one evaluation is one draw, not the value of the expression
+    from ..cfg import CFG, describe_path, find_path
+    cfg = CFG(tr)
+    stoch = [t for t in cfg.nodes_of('test') if norm(t.ast) == 'ctx.is_stochastic()']
+    evals = [n for n in cfg.nodes if n.ast is not None and n.kind in ('stmt', 'return') and any(call_name(k) == 'self.rt.eval_expr' for k in calls_in(n.ast))]
+    if not evals:
+        raise ShapeError('_try_eval: evaluating statement not found')
+    for ev in evals:
+        # a path on which every stochastic test met answers "yes" (or none is met) and the evaluation is still reached
+        p = find_path(cfg, cfg.entry, ev, edge_ok=lambda n, lab: not (n in stoch and lab is False))
+        ctx.check(bool(stoch) and p is None, PE, ev.ast, '_PartialEvalInstance._try_eval', 'nothing is evaluated at analysis time under a stochastic context',
+                  'an operation under a context with random bits is folded to the value of one draw: `1.0 / 3.0` under 8 random bits is reported constant and rewritten to it',
+                  path=describe_path(p, PE) if p else None)
 
 
 # ----------------------------------------------------------------------
@@ -485,6 +498,9 @@ RULES = [
 from ..selftest import Mutant  # noqa: E402
 
 MUTANTS = [
+    Mutant('one-draw-folded-to-a-constant', PE, "        if ctx.is_stochastic():\n            return None\n        try:", "        try:", 'C07.G4',
+           'finding F74 before its repair: `1.0 / 3.0` under a stochastic binary16 context is reported constant'),
+    Mutant('stochastic-test-inverted', PE, "        if ctx.is_stochastic():\n            return None\n        try:", "        if not ctx.is_stochastic():\n            return None\n        try:", 'C07.G4'),
     Mutant('copy-of-a-source-assigned-elsewhere', COPY, "                if len(def_use.name_to_defs[d.site.expr.name]) != 1:\n                    continue\n", "", 'C07.G1',
            'finding F8 before its repair: y = a; x = y; y = y + 1; return x  simplifies to a + 1'),
     Mutant('dce-analysis-of-another-function', DCE, "        func, eliminated = _DeadCodeEliminate(func, def_use).apply()", "        func, eliminated = _DeadCodeEliminate(SimplifyIf.apply(func), def_use).apply()", 'C07.P1'),
